@@ -326,7 +326,19 @@ def r5_traceback(cx, sites):
                 fe = [x for x in ast.walk(outer) if isinstance(x, ast.Call) and call_name(x) == "traceback.format_exc"]
                 cx.require(len(c.args) >= 3 and bool(fe), c, "marshal passes the formatted traceback")
             else:
-                cx.unknown(c, "add_exception outside an except handler")
+                tb0 = c.args[2] if len(c.args) >= 3 else None
+                for k0 in c.keywords:
+                    if k0.arg == "tb":
+                        tb0 = k0.value
+                if isinstance(tb0, ast.Call) and call_name(tb0) == "traceback.format_exc":
+                    # no exception is being handled where this call is evaluated: on Python 3 the text is 'NoneType: None'
+                    cx.bad(c, "the traceback is formatted while the exception is being handled (traceback.format_exc() outside the except block has nothing to format)", construct=short(c, 100))
+                elif isinstance(tb0, ast.Name) and fn is not None and any(isinstance(a, ast.Assign) and any(U(t) == tb0.id for t in a.targets) and isinstance(a.value, ast.Call)
+                                                                        and call_name(a.value) == "traceback.format_exc" and _handler_of(a) is not None for a in walk_body(fn.body)) \
+                        and all(_handler_of(a) is not None or U(a.value) in ("None", "''") for a in walk_body(fn.body) if isinstance(a, ast.Assign) and any(U(t) == tb0.id for t in a.targets)):
+                    cx.ok(c, "the traceback recorded after the try was formatted inside the handler", construct=short(c, 100))
+                else:
+                    cx.unknown(c, "add_exception outside an except handler")
             continue
         if handler_names(h) == ["MissingRequirements"]:
             cx.ok(c, "missing requirements carry no traceback (not a failure)")
